@@ -368,6 +368,10 @@ class Prover:
             cr = self.closure_item_range(t)
             if cr is not None:
                 return cr
+            ri = self.range_item(t)
+            if ri is not None:
+                ra, rb = self._rng(ri[0], bb, d), self._rng(ri[1], bb, d)
+                return (ra[0], rb[1] - 1)
             base = t[1]
             p = util.adt_path_of(self.ctx, self.se, base)
             if p and p in self.fb.adts:
@@ -378,8 +382,10 @@ class Prover:
             return self._by_type(t)
         if k == "call":
             n = t[1]
-            if n in ("<T as std::convert::Into<U>>::into", "<usize as std::convert::From<u8>>::from") or n.endswith("as std::convert::From<u8>>::from"):
-                return self._rng(t[2][0], bb, d)
+            if n in ("<T as std::convert::Into<U>>::into", "<usize as std::convert::From<u8>>::from") or n.endswith("as std::convert::From<u8>>::from") or n.startswith("std::convert::num::<impl std::convert::From<") or n.startswith("core::convert::num::<impl std::convert::From<"):
+                inner = self._rng(t[2][0], bb, d)
+                tr = self._by_type(t)
+                return meet(inner, tr) if inner[0] >= tr[0] and inner[1] <= tr[1] else tr
             return self._by_type(t)
         if k in ("index", "cindex"):
             # element of a byte array / slice
@@ -428,6 +434,12 @@ class Prover:
         if ra[0] > ra[1] or rb[0] > rb[1]:
             return (INF, -INF)
         if op in ("Add", "AddUnchecked"):
+            # x + (x & 1) and x + x % 2 round x up to the next even number
+            for x, y in ((a, b), (b, a)):
+                if y[0] == "binop" and ((y[1] == "BitAnd" and y[3][:2] == ("int", 1)) or (y[1] == "Rem" and y[3][:2] == ("int", 2))) and y[2] == x:
+                    rx = self._rng(x, bb, d)
+                    hi = rx[1] if rx[1] == INF or int(rx[1]) % 2 == 0 else rx[1] + 1
+                    return (rx[0], hi)
             return (ra[0] + rb[0], ra[1] + rb[1])
         if op in ("Sub", "SubUnchecked"):
             return (ra[0] - rb[1], ra[1] - rb[0])
@@ -774,6 +786,18 @@ class Prover:
                 return (0, s[1])
         return (0, INF)
 
+    def range_item(self, t):
+        """t = (next(Range{a,b}) as Some).0  ->  (a term, b term) of the range it iterates"""
+        if t[0] == "field" and t[2] == 0 and t[1][0] == "downcast":
+            nx = t[1][1]
+            if util.is_call(nx) and nx[1].endswith("::next") and "Range" in nx[1]:
+                for lp in util.for_loops(self.ctx, self.se):
+                    if strip(lp["elem"]) == t and lp["init_call"] is not None:
+                        src = strip(lp["init_call"][2][0])
+                        if src[0] == "agg" and src[2] == "std::ops::Range":
+                            return util.numnorm(src[4][0]), util.numnorm(src[4][1])
+        return None
+
     def iter_index_range(self, t):
         """t = (next(enumerate it) as Some).0.0 -> [0, len-1]"""
         if t[0] == "field" and t[2] == 0 and t[1][0] == "field" and t[1][2] == 0 and t[1][1][0] == "downcast":
@@ -802,6 +826,9 @@ class Prover:
                 return True, "dominating guard %s < %s" % (show(na, maxdepth=2), show(nb, maxdepth=2))
             if op == "Gt" and y == na and x == nb:
                 return True, "dominating guard"
+        ri = self.range_item(na)
+        if ri is not None and (ri[1] == nb or (nb[0] == "len" and ri[1][0] == "len" and strip_len(ri[1]) == strip_len(nb))):
+            return True, "loop variable of `for _ in a..b` with b = the bound"
         ra, rb = self.rng(na, bb), self.rng(nb, bb)
         if ra[1] < rb[0]:
             return True, "%s in [%s, %s] < %s in [%s, %s]" % (show(na, maxdepth=2), ra[0], ra[1], show(nb, maxdepth=2), rb[0], rb[1])
@@ -830,6 +857,26 @@ class Prover:
         if r[0] > 0 or r[1] < 0:
             return True, "in [%s, %s]" % r
         return False, "%s may be 0" % show(util.numnorm(a), maxdepth=3)
+
+
+def strip_len(t):
+    """the object whose length a ("len", x) term measures, modulo update history of a slice
+    (writes to elements do not change a slice's length)"""
+    x = t[1] if t[0] == "len" else t
+    while True:
+        if x[0] in ("ref", "refv"):
+            x = x[1]
+        elif x[0] == "upd":
+            x = x[1]
+        elif x[0] == "after":
+            x = x[3]
+        elif x[0] == "phi":
+            x = x[3]
+            if x[0] == "local":
+                return ("local-root", x[1])
+        else:
+            break
+    return strip(x)
 
 
 def _is_iter_term(t):
